@@ -174,6 +174,7 @@ theorem charScorerNew_canon {cfg : Cfg} {m : WModel} {tn : List (List (TagNgramD
   intro sc hsc
   subst hsc
   simp only [charScorerNew] at h
+  generalize (if m.charW = 0 then ({ m with charNgrams := [] } : WModel) else m) = m' at h
   split at h
   · cases h
   · split at h
@@ -203,6 +204,7 @@ theorem typeScorerNew_canon {cfg : Cfg} {m : WModel} {tn : List (List (TagNgramD
   intro t ht
   subst ht
   simp only [typeScorerNew] at h
+  generalize (if m.typeW = 0 then ({ m with typeNgrams := [] } : WModel) else m) = m' at h
   split at h
   · cases h
   · split at h
